@@ -274,6 +274,11 @@ func RunParent(ck *Check, root, tier string, seed uint64, only []int) int {
 		if per < 1 {
 			per = 1
 		}
+		// a child is a fresh process with bounded memory: the real controllers, store watch pumps and the Atomix
+		// test runtime leave goroutines behind that keep parts of every finished case alive
+		if per > 12 {
+			per = 12
+		}
 	}
 	var chunks []chunk
 	if len(only) > 0 {
